@@ -114,3 +114,10 @@ package bn256
 //@ func (*G1).ScalarBaseMult trusted
 //@   ensures err == nil ==> result0 != nil
 //@   modifies *e
+
+// the range test behind every coordinate decoder: 1 exactly when the four little-endian limbs, read as
+// one 256-bit integer, are below the field prime held in p2 (all four limbs take part in the borrow chain)
+//@ func lessThanP property C09
+//@   requires x != nil
+//@   ensures result == ite(x[0] + 18446744073709551616 * x[1] + 340282366920938463463374607431768211456 * x[2] + 6277101735386680763835789423207666416102355444464034512896 * x[3] < p2[0] + 18446744073709551616 * p2[1] + 340282366920938463463374607431768211456 * p2[2] + 6277101735386680763835789423207666416102355444464034512896 * p2[3], 1, 0)
+//@   modifies nothing
